@@ -199,6 +199,14 @@ def directed_permutations(ctx, vh, K):
         "other/test_x.py": H + "@pytest.fixture(scope=\"session\")\ndef db() -> \"Unrelated\":\n    return 3\n\ndef test_x(db):\n    pass\n",
         "pkg/test_use.py": H + "def test_u(db, only_helpers):\n    pass\n\n@pytest.fixture(scope=\"module\")\ndef uses_db(db):\n    return db\n",
         "pkg/sub/test_deeper.py": "def test_d(db):\n    v = db\n"}
+    # several fixtures of one broader scope share one narrower dependency (each is a finding of its own, in every run), next
+    # to a sibling file that overrides a conftest name locally while another file of the directory uses the conftest's
+    layouts["fixtures_of_one_scope_sharing_a_narrower_dependency"] = {
+        "conftest.py": H + "@pytest.fixture\ndef narrow():\n    return 1\n\n"
+                       + "".join(f"@pytest.fixture(scope=\"session\")\ndef s{j}(narrow):\n    return {j}\n\n" for j in range(4))
+                       + "".join(f"@pytest.fixture(scope=\"module\")\ndef m{j}(narrow):\n    return {j}\n\n" for j in range(3)),
+        "test_plain.py": "def test_p(narrow, s0, s1, s2, s3, m0, m1, m2):\n    pass\n",
+        "test_override.py": H + "@pytest.fixture\ndef narrow():\n    return 2\n\ndef test_o(narrow, s0):\n    pass\n"}
     for lname, files in layouts.items():
         root = ctx.scratch("dir_" + lname)
         ws = gen.WS(root)
